@@ -193,6 +193,9 @@ pub struct Task<'a> {
 }
 
 pub enum SchedOutcome {
+    /// barging-mode run in which a parked task waited longer than the safety margin of
+    /// async-lock's 500 us wall-clock starvation threshold: schedule semantics not guaranteed
+    Tainted,
     AllDone,
     Deadlock(Vec<usize>),
     Budget,
@@ -205,9 +208,11 @@ pub fn run_tasks<'a>(
     tasks: &mut Vec<Task<'a>>,
     mut choose: impl FnMut(&[usize], usize) -> usize,
     step_budget: usize,
+    park_sleep: Option<std::time::Duration>,
 ) -> (SchedOutcome, Vec<u32>) {
     let mut schedule: Vec<u32> = vec![];
     let mut steps = 0usize;
+    let mut park_since: Vec<Option<Instant>> = vec![None; tasks.len()];
     loop {
         let alive: Vec<usize> = (0..tasks.len()).filter(|i| tasks[*i].fut.is_some()).collect();
         if alive.is_empty() {
@@ -229,6 +234,13 @@ pub fn run_tasks<'a>(
         steps += 1;
         schedule.push(t as u32);
         tasks[t].waker.ready.store(false, Ordering::SeqCst);
+        if park_sleep.is_none() {
+            if let Some(since) = park_since[t] {
+                if since.elapsed() > std::time::Duration::from_micros(350) {
+                    return (SchedOutcome::Tainted, schedule);
+                }
+            }
+        }
         let waker = Waker::from(tasks[t].waker.clone());
         let mut cx = Context::from_waker(&waker);
         let fut = tasks[t].fut.as_mut().unwrap();
@@ -236,8 +248,24 @@ pub fn run_tasks<'a>(
         match r {
             Ok(Poll::Ready(())) => {
                 tasks[t].fut = None;
+                park_since[t] = None;
             }
-            Ok(Poll::Pending) => {}
+            Ok(Poll::Pending) => {
+                // Pending without a self-wake = parked on the async mutex. async-lock hands the
+                // lock over fairly only to waiters that have waited > 500 us of WALL-CLOCK time
+                // (a clock inside a dependency that cannot be seamed); in "starved" runs that
+                // state is forced by really waiting longer than the threshold.
+                if !tasks[t].waker.ready.load(Ordering::SeqCst) {
+                    if park_since[t].is_none() {
+                        park_since[t] = Some(Instant::now());
+                    }
+                    if let Some(d) = park_sleep {
+                        std::thread::sleep(d);
+                    }
+                } else {
+                    park_since[t] = None;
+                }
+            }
             Err(_) => {
                 let m =
                     LAST_PANIC.with(|p| p.borrow_mut().take()).unwrap_or_else(|| "panic".into());
